@@ -60,7 +60,11 @@ class Repartition(Expr):
         ):
             new_partitions = self.operand("new_partitions")
             if isinstance(new_partitions, Callable):
-                return new_partitions(self.frame.npartitions)
+                new_partitions = new_partitions(self.frame.npartitions)
+            if new_partitions > self.frame.npartitions and self.frame.known_divisions:
+                # The interpolated divisions are de-duplicated (see _lower), so
+                # fewer partitions than requested can come out
+                return len(self.divisions) - 1
             return new_partitions
         return super().npartitions
 
